@@ -5,6 +5,7 @@ CONSTANTS
   MaxRogue = 1
   FixUnknown = TRUE
   CtxWriteCloses = FALSE
+  OfferWatchesClosed = TRUE
 SPECIFICATION Spec
 ACTION_CONSTRAINT Emit
 CHECK_DEADLOCK FALSE
